@@ -1,6 +1,11 @@
 package interp
 
-import "golang.org/x/tools/go/ssa"
+import (
+	"go/token"
+	"go/types"
+
+	"golang.org/x/tools/go/ssa"
+)
 
 func init() {
 	externals["(*sync.Once).Do"] = func(fr *frame, args []value) value {
@@ -63,4 +68,55 @@ func init() {
 	// identity: only hides the pointer from escape analysis
 	externals["internal/abi.NoEscape"] = func(fr *frame, args []value) value { return args[0] }
 	externals["strings.noescape"] = func(fr *frame, args []value) value { return args[0] }
+}
+
+// sync/atomic on plain integers and pointers: one interpreted goroutine runs at a time, so plain
+// loads/stores are atomic in the engine.
+func init() {
+	ld := func(fr *frame, args []value) value { return *args[0].(*value) }
+	st := func(fr *frame, args []value) value { *args[0].(*value) = args[1]; return nil }
+	swap := func(fr *frame, args []value) value {
+		p := args[0].(*value)
+		old := *p
+		*p = args[1]
+		return old
+	}
+	for _, t := range []string{"Int32", "Int64", "Uint32", "Uint64", "Uintptr", "Pointer"} {
+		externals["sync/atomic.Load"+t] = ld
+		externals["sync/atomic.Store"+t] = st
+		externals["sync/atomic.Swap"+t] = swap
+		tt := t
+		externals["sync/atomic.CompareAndSwap"+t] = func(fr *frame, args []value) value {
+			p := args[0].(*value)
+			eq := binop(token.EQL, atomicType(tt), *p, args[1])
+			if decideV(eq) {
+				*p = args[2]
+				return true
+			}
+			return false
+		}
+		if t != "Pointer" {
+			externals["sync/atomic.Add"+t] = func(fr *frame, args []value) value {
+				p := args[0].(*value)
+				*p = binop(token.ADD, atomicType(tt), *p, args[1])
+				return *p
+			}
+		}
+	}
+}
+
+func atomicType(t string) types.Type {
+	switch t {
+	case "Int32":
+		return types.Typ[types.Int32]
+	case "Int64":
+		return types.Typ[types.Int64]
+	case "Uint32":
+		return types.Typ[types.Uint32]
+	case "Uint64":
+		return types.Typ[types.Uint64]
+	case "Uintptr":
+		return types.Typ[types.Uintptr]
+	}
+	return types.Typ[types.UnsafePointer]
 }
